@@ -7,6 +7,13 @@ import Mahotas.Proofs.C07Order
 import Mahotas.Proofs.C07Erode
 import Mahotas.Proofs.C07Wrap
 import Mahotas.Proofs.C07Dilate
+import Mahotas.Proofs.C07Currank
+import Mahotas.Proofs.C07Float
+import Mahotas.Proofs.C07FloatBound
+import Mahotas.Proofs.C07Mean
+import Mahotas.Proofs.C07Iso
+import Mahotas.Proofs.C07Defined
+import Mahotas.Proofs.C07Majority
 import Mahotas.Properties.C01
 import Mathlib.Algebra.Order.Field.Basic
 import Mathlib.Algebra.Order.Field.Rat
@@ -539,3 +546,270 @@ theorem C07_mode_codes_agree (m : Mahotas.Mode) :
 
 /-- non-vacuity: `reflect` is mode 2 in both tables -/
 example : Mahotas.Generated.pyModes.lookup (Mahotas.Mode.reflect).name = some 2 := by decide
+
+/-! ## Round 4: `currank` in binary64, pixels without a sample, float `template_match`, `majority_filter` -/
+
+/-- **C07-R4a (the rescaled rank, as the C++ computes it in double, is the exact floor).**
+`rank_filter` computes `currank = npy_intp(n * rank / double(N2))`: the 64-bit integer product `n·rank` and `N2` are
+converted to double, divided there, and the quotient is truncated. For EVERY round-to-nearest arithmetic with a 53-bit
+significand (`Rounding rnd`: monotone, relative error `≤ 2^-53`, exact on integers up to `2^53` — IEEE binary64
+`roundTiesToEven` is `rne53`, second part) and all sizes that occur (`n ≤ N2` gathered samples, `rank < N2`,
+fewer than `2^26` members) the generic definition `curRankG` — which the driver runs with binary64 operations
+(`floatRankOps`) and prints as `dmodel=` — instantiated with the rounded rational operations equals `curRank`, the
+`Nat` division `⌊n·rank / N2⌋` the model and all other C07 theorems use. Hence the whole filter: `rankAtG = rankAt`. -/
+theorem C07_currank_double_eq_floor (rnd : ℚ → ℚ) (hr : Mahotas.C05.Rounding rnd) :
+    (∀ n N2 rank : ℕ, n ≤ N2 → rank < N2 → N2 < 2 ^ 26 →
+      curRankG (ratRankOps rnd) n N2 rank = curRank n N2 rank) ∧
+    (∀ (m : Mode) (f : Img Int) (fp : List (List Int)) (rank : Int) (p : List Int), fp.length < 2 ^ 26 →
+      rankAtG (ratRankOps rnd) m f fp rank p = rankAt m f fp rank p) := by
+  refine ⟨fun n N2 rank hn hrank hsz => curRankG_small rnd hr n N2 rank hn hrank hsz, ?_⟩
+  intro m f fp rank p hsz
+  unfold rankAtG rankAt
+  by_cases h : rank < 0 ∨ rank ≥ (fp.length : Int)
+  · rw [if_pos h, if_pos h]
+  · rw [if_neg h, if_neg h]
+    simp only
+    rw [curRankG_small rnd hr _ _ _ (gather_length_le m f fp p) (by omega) hsz]
+
+/-- binary64 `roundTiesToEven` is such an arithmetic, exact arithmetic another; `⌊3·2/5⌋ = 1` at a corner pixel -/
+example : (∀ n N2 rank : ℕ, n ≤ N2 → rank < N2 → N2 < 2 ^ 26 →
+      curRankG (ratRankOps Mahotas.C05.rne53) n N2 rank = curRank n N2 rank) ∧ curRank 3 5 2 = 1 :=
+  ⟨(C07_currank_double_eq_floor _ Mahotas.C05.rne53_rounding).1, by decide⟩
+
+/-- **C07-R4b (pixels without a sample: `ignore` mode and an all-outside neighbourhood).** For a rank inside `[0, N2)`
+and offsets of the image's rank: the model of `rank_filter` is undefined at `p` (`none`: the C++ calls `nth_element` on
+an empty range and stores `neighbours[0]`, a value left over from the previous pixel — nothing the statement or the
+`nth_element` contract fixes) **iff** the mode is `ignore` and every member of the neighbourhood placed at `p` falls
+outside the image; `mean_filter` divides by `n = 0` (NaN) in exactly the same case. In the five other modes, and
+whenever some member lands inside (e.g. the centre is a member and `p` is a pixel), the value exists and is the
+`k`-th smallest sample (`C07_rank_is_kth_smallest`). -/
+theorem C07_no_sample_iff (m : Mode) (f : Img Int) (fp : List (List Int)) (rank : Int) (p : List Int)
+    (h0 : 0 ≤ rank) (h1 : rank < fp.length) (hlen : ∀ k ∈ fp, (addPos p k).length = f.shape.length) :
+    (rankAt m f fp rank p = none ↔ (m = .ignore ∧ ∀ k ∈ fp, inside f.shape (addPos p k) = false)) ∧
+    ((meanParts m f fp p).2 = 0 ↔ (m = .ignore ∧ ∀ k ∈ fp, inside f.shape (addPos p k) = false)) ∧
+    ((m ≠ .ignore ∨ ∃ k ∈ fp, inside f.shape (addPos p k) = true) → ∃ v, rankAt m f fp rank p = some v) := by
+  have hne : fp ≠ [] := by
+    intro h; rw [h] at h1; simp at h1; omega
+  have hg := gather_eq_nil_iff m f fp p hlen
+  have hg' : gather m f fp p = [] ↔ (m = .ignore ∧ ∀ k ∈ fp, inside f.shape (addPos p k) = false) := by
+    rw [hg]; constructor
+    · rintro (h | h); exact absurd h hne; exact h
+    · exact Or.inr
+  have hr := rankAt_none_iff_gather m f fp rank p h0 h1
+  refine ⟨hr.trans hg', ?_, ?_⟩
+  · unfold meanParts
+    simp only
+    rw [List.length_eq_zero_iff]; exact hg'
+  · intro h
+    cases hv : rankAt m f fp rank p with
+    | some v => exact ⟨v, rfl⟩
+    | none =>
+      exfalso
+      obtain ⟨hm, hall⟩ := (hr.trans hg').1 hv
+      rcases h with h | ⟨k, hk, hin⟩
+      · exact h hm
+      · rw [hall k hk] at hin; cases hin
+
+/-- non-vacuity: the two horizontal neighbours (centre not a member) on a 1×1 image: no sample in `ignore` mode —
+    undefined rank (by the theorem), zero count —, two samples in `reflect` mode -/
+example :
+    let f : Img Int := { shape := [1, 1], data := #[7] }
+    let fp := footprint [1, 3] #[1, 0, 1]
+    fp = [[0, -1], [0, 1]] ∧ rankAt .ignore f fp 1 [0, 0] = none ∧ meanParts .ignore f fp [0, 0] = (0, 0) ∧
+    rankAt .reflect f fp 1 [0, 0] = some 7 ∧ meanParts .reflect f fp [0, 0] = (14, 2) := by
+  intro f fp
+  have hfp : fp = [[0, -1], [0, 1]] := by decide
+  refine ⟨hfp, ?_, by decide, ?_, by decide⟩
+  · exact (C07_no_sample_iff .ignore f fp 1 [0, 0] (by decide) (by decide) (by decide)).1.2 ⟨rfl, by decide⟩
+  · rw [C07_rank_eq_spec _ _ (by decide)]
+    decide
+
+/-- **C07-R4c (`template_match` generic in the arithmetic of `T`; float images with integer values are exact).**
+`tmAtG` is `template_match<T>` written once for every `T` (`T diff2 = 0; delta = val > tj ? val − tj : tj − val;
+diff2 += delta*delta`); the driver runs it with binary64 and binary32 operations for float images (kind `tmf`, compared
+bit for bit with the real output on arbitrary finite values). (1) With the integer operations it IS the exact model of
+rounds 1–3 (`tmAtG intTmOps = tmAt`, so `C07_template_match_ssd` and the wrapping theorems speak about an instance of it).
+(2) With rounded rational operations `rnd (a ∘ b)`, for every round-to-nearest `rnd` of 53 bits (`Rounding rnd`), on an
+integer-valued image and template whose exact sum of squared differences at `p` is at most `2^53`, no operation rounds:
+the result is the exact value of the specification `tmSpecAt` (this is the case on which the harness compares float
+images with the specification exactly). -/
+theorem C07_template_match_float_exact (m : Mode) (f : Img Int) (tshape : List Nat) (t : Array Int) (p : List Int) :
+    tmAtG intTmOps m f tshape t p = tmAt m f tshape t p ∧
+    ∀ (rnd : ℚ → ℚ), Mahotas.C05.Rounding rnd → (∀ d ∈ f.shape, 0 < d) → tmSpecAt m f tshape t p ≤ 2 ^ 53 →
+      tmAtG (ratTmOps rnd) m (castImg f) tshape (castArr t) p = ((tmSpecAt m f tshape t p : ℤ) : ℚ) := by
+  refine ⟨tmAtG_int m f tshape t p, fun rnd hr hs hb => ?_⟩
+  rw [← C07_template_match_ssd m f hs tshape t p] at hb ⊢
+  exact tmAtG_rat_exact rnd hr m f tshape t p hb
+
+/-- non-vacuity: binary64 rounding, the 2×2 image of the earlier examples: SSD 40 at the corner, below `2^53` -/
+example :
+    let f : Img Int := { shape := [2, 2], data := #[7, 1, 5, 3] }
+    tmAtG (ratTmOps Mahotas.C05.rne53) .nearest (castImg f) [1, 2] (castArr #[1, 5]) [0, 0] = 40 := by
+  intro f
+  have h := (C07_template_match_float_exact .nearest f [1, 2] #[1, 5] [0, 0]).2 _ Mahotas.C05.rne53_rounding
+    (by decide) (by decide)
+  rw [h]
+  have : tmSpecAt .nearest f [1, 2] #[1, 5] [0, 0] = 40 := by decide
+  rw [this]; norm_num
+
+/-- **C07-R4c' (forward error bound of float `template_match`).** For ANY rational image and template (every finite
+float is a rational), every border mode and pixel: the kernel `tmAtG` run with operations rounded to nearest with a
+53-bit significand returns a value between `(1 − u)^(N+3) · S` and `(1 + u)^(N+3) · S`, where `u = 2^-53`, `N` is the number
+of template entries and `S ≥ 0` is the same kernel in exact rational arithmetic (the exact sum of squared differences over
+the provided samples): the difference rounds once, its square carries that factor twice and rounds once, and each of the
+at most `N` additions rounds once; all terms are non-negative, so the bound is relative to `S` itself — no cancellation.
+This is the margin of the harness (`|got − S| ≤ 2 (N + 3) u · S`, with `(1+u)^k − 1 ≤ 2 k u` for `k u ≤ 1`). Overflow
+and underflow are outside the `Rounding` interface (unbounded exponent). -/
+theorem C07_template_match_float_error_bound (rnd : ℚ → ℚ) (hr : Mahotas.C05.Rounding rnd) (m : Mode) (f : Img ℚ)
+    (tshape : List Nat) (t : Array ℚ) (p : List Int) :
+    0 ≤ tmAtG exactTmOps m f tshape t p ∧
+    (1 - uRnd) ^ (shapeSize tshape + 3) * tmAtG exactTmOps m f tshape t p ≤ tmAtG (ratTmOps rnd) m f tshape t p ∧
+    tmAtG (ratTmOps rnd) m f tshape t p ≤ (1 + uRnd) ^ (shapeSize tshape + 3) * tmAtG exactTmOps m f tshape t p :=
+  tmAtG_rat_bound rnd hr m f tshape t p
+
+/-- non-vacuity: binary64 rounding of a 1×2 window with values 1/3 and 1/5 against the template (1/7, 2) centred on the second pixel: the exact
+    value is `(1/3 − 1/7)² + (2 − 1/5)² = 36121/11025`, and `u = 2^-53` -/
+example :
+    let f : Img ℚ := { shape := [1, 2], data := #[1 / 3, 1 / 5] }
+    tmAtG exactTmOps .nearest f [1, 2] #[1 / 7, 2] [0, 1] = 36121 / 11025 ∧ uRnd = 1 / 9007199254740992 ∧
+    (1 - uRnd) ^ 5 * (36121 / 11025) ≤ tmAtG (ratTmOps Mahotas.C05.rne53) .nearest f [1, 2] #[1 / 7, 2] [0, 1] := by
+  intro f
+  have h := C07_template_match_float_error_bound _ Mahotas.C05.rne53_rounding .nearest f [1, 2] #[1 / 7, 2] [0, 1]
+  have e : tmAtG exactTmOps .nearest f [1, 2] #[1 / 7, 2] [0, 1] = 36121 / 11025 := by
+    simp [tmAtG, exactTmOps, f, shapeSize, List.range, List.range.loop, fixPos, fixOffset, addPos, offsetOf, unravelI, unravel,
+      subPos, centreOf, Img.getD, inside, ravelI]
+    norm_num
+  refine ⟨e, by unfold uRnd; norm_num, ?_⟩
+  rw [e] at h
+  exact h.2.1
+
+/-- **C07-R4e (`mean_filter` in double is the correctly rounded exact mean).** `meanAtG` is `mean_filter<T>` generic in
+the arithmetic (`double sum = 0; sum += val` over the gathered samples in scan order, then `sum / n`); the driver runs it
+with binary64 operations (kind `meanf`, compared bit for bit with the real output on arbitrary finite float values). At
+`Int` its samples are those of `gather`. With operations rounded to nearest with a 53-bit significand (`Rounding rnd`), on
+an integer-valued image (positive axis lengths) whose selected samples have magnitudes summing to at most `2^53` (and a
+neighbourhood of at most `2^53` members), every addition is exact and the result is the ONE rounding of the exact quotient
+of the specification: `rnd (Σ samples / number of samples)` — what the harness computes as `float(Fraction(sum, n))`. -/
+theorem C07_mean_double_exact (rnd : ℚ → ℚ) (hr : Mahotas.C05.Rounding rnd) (m : Mode) (f : Img Int)
+    (hs : ∀ d ∈ f.shape, 0 < d) (fp : List (List Int)) (p : List Int)
+    (hb : absSum (specSamples m f fp p) ≤ 2 ^ 53) (hn : (fp.length : Int) ≤ 2 ^ 53) :
+    gatherG 0 m f fp p = specSamples m f fp p ∧
+    meanAtG (ratMeanOps rnd) m (castImg f) fp p =
+      rnd (((meanSpecParts m f fp p).1 : ℚ) / ((meanSpecParts m f fp p).2 : ℚ)) := by
+  refine ⟨(gatherG_int m f fp p).trans (gather_eq_specSamples m f hs fp p), ?_⟩
+  rw [← C07_mean_exact m f hs fp p]
+  rw [← gather_eq_specSamples m f hs fp p] at hb
+  exact meanAtG_rat_exact rnd hr m f fp p hb hn
+
+/-- non-vacuity: binary64 rounding, the 3×3 cross at the corner of the 2×2 image in `ignore` mode: samples 7, 1, 5,
+    magnitudes sum to 13, result = the rounding of 13/3 -/
+example :
+    let f : Img Int := { shape := [2, 2], data := #[7, 1, 5, 3] }
+    let fp := footprint [3, 3] #[0, 1, 0, 1, 1, 1, 0, 1, 0]
+    absSum (specSamples .ignore f fp [0, 0]) = 13 ∧
+    meanAtG (ratMeanOps Mahotas.C05.rne53) .ignore (castImg f) fp [0, 0] = Mahotas.C05.rne53 (13 / 3) := by
+  intro f fp
+  have ha : absSum (specSamples .ignore f fp [0, 0]) = 13 := by decide
+  refine ⟨ha, ?_⟩
+  have h := (C07_mean_double_exact _ Mahotas.C05.rne53_rounding .ignore f (by decide) fp [0, 0]
+    (by rw [ha]; norm_num) (by decide)).2
+  rw [h]
+  have : meanSpecParts .ignore f fp [0, 0] = (13, 3) := by decide
+  rw [this]; norm_num
+
+/-- **C07-R4f (error bounds for any precision: binary32 images, and `mean_filter` with cancellation).** For every
+rounding `rnd` with relative error at most `u` (`0 < u < 1`; binary64: `u = 2^-53`, binary32: `u = 2^-24` — the arithmetic of
+`template_match<float>`), any rational data, every mode and pixel:
+(1) `template_match`: `(1−u)^(N+3) · S ≤ computed ≤ (1+u)^(N+3) · S`, `S` the exact kernel, `N` the template size;
+(2) `mean_filter` (samples of both signs, so cancellation is possible): with `n ≥ 1` gathered samples whose count converts
+exactly, `|computed − exact mean| ≤ ((1+u)^(n+1) − 1) · (Σ|x|) / n` — the error of recursive summation relative to the sum
+of the magnitudes, one more rounding for the division. These are the margins the harness uses for float images
+(`2(N+3)u·S` and `2(n+1)u·Σ|x|/n`). -/
+theorem C07_float_error_bounds_any_precision (rnd : ℚ → ℚ) (u : ℚ) (hu0 : 0 < u) (hu1 : u < 1)
+    (hrel : ∀ x : ℚ, |rnd x - x| ≤ |x| * u) (m : Mode) (f : Img ℚ) (p : List Int) :
+    (∀ (tshape : List Nat) (t : Array ℚ),
+      (1 - u) ^ (shapeSize tshape + 3) * tmAtG exactTmOps m f tshape t p ≤ tmAtG (ratTmOps rnd) m f tshape t p ∧
+      tmAtG (ratTmOps rnd) m f tshape t p ≤ (1 + u) ^ (shapeSize tshape + 3) * tmAtG exactTmOps m f tshape t p) ∧
+    (∀ (fp : List (List Int)), 0 < (gatherG (0 : ℚ) m f fp p).length →
+      rnd ((gatherG (0 : ℚ) m f fp p).length : ℚ) = ((gatherG (0 : ℚ) m f fp p).length : ℚ) →
+      |meanAtG (ratMeanOps rnd) m f fp p - meanAtG exactMeanOps m f fp p| ≤
+        ((1 + u) ^ ((gatherG (0 : ℚ) m f fp p).length + 1) - 1) * absSumQ (gatherG (0 : ℚ) m f fp p) /
+          ((gatherG (0 : ℚ) m f fp p).length : ℚ)) :=
+  ⟨fun tshape t => (tmAtG_rat_bound_u rnd u hu0 hu1 hrel m f tshape t p).2,
+   fun fp hn0 hn => meanAtG_rat_bound_u rnd u hu0 hrel m f fp p hn0 hn⟩
+
+/-- non-vacuity: binary64 rounding satisfies the hypothesis with `u = 2^-24` as well (a coarser bound), and converts
+    the count 2 exactly; the two horizontal neighbours of a 1×3 row with values 1/3, −1/3 + 1/7 in `nearest` mode -/
+example :
+    let f : Img ℚ := { shape := [1, 3], data := #[1 / 3, 0, -1 / 3 + 1 / 7] }
+    let fp : List (List Int) := [[0, -1], [0, 1]]
+    gatherG (0 : ℚ) .nearest f fp [0, 1] = [1 / 3, -1 / 3 + 1 / 7] ∧
+    |meanAtG (ratMeanOps Mahotas.C05.rne53) .nearest f fp [0, 1] - meanAtG exactMeanOps .nearest f fp [0, 1]| ≤
+      ((1 + 1 / 2 ^ 24) ^ 3 - 1) * absSumQ [1 / 3, -1 / 3 + 1 / 7] / 2 := by
+  intro f fp
+  have hg : gatherG (0 : ℚ) .nearest f fp [0, 1] = [1 / 3, -1 / 3 + 1 / 7] := by
+    simp [gatherG, f, fp, fixPos, fixOffset, addPos, Img.getD, inside, ravelI, shapeSize]
+  refine ⟨hg, ?_⟩
+  have hrel : ∀ x : ℚ, |Mahotas.C05.rne53 x - x| ≤ |x| * (1 / 2 ^ 24) := by
+    intro x
+    have h := Mahotas.C05.rne53_rounding.rel x
+    have : |x| / 2 ^ 53 ≤ |x| * (1 / 2 ^ 24) := by
+      rw [mul_one_div]
+      exact div_le_div_of_nonneg_left (abs_nonneg x) (by norm_num) (by norm_num)
+    linarith
+  have h := (C07_float_error_bounds_any_precision Mahotas.C05.rne53 (1 / 2 ^ 24) (by norm_num) (by norm_num) hrel
+    .nearest f [0, 1]).2 fp
+  rw [hg] at h
+  have h2 := Mahotas.C05.rne53_rounding.exact_int 2 (by norm_num)
+  exact h (by decide) (by simpa using h2)
+
+/-- **C07-R4g (the rank filter is invariant under order embeddings of the values).** `rank_filter` / `median_filter` only
+compare samples: for every strictly increasing `g : ℤ → ℤ` with `g 0 = 0` (0 is the `cval` of `constant` mode), every mode,
+image, neighbourhood, rank and pixel, filtering the re-encoded image gives the re-encoded result:
+`rankAt m (mapImg g f) … = (rankAt m f …).map g` (both undefined together). This is the fact by which the check feeds FLOAT
+images to the integer model: quarter-integers through `x ↦ 4x`, arbitrary non-NaN floats (denormals, ±inf; not −0.0) through
+`x ↦ sign(x)·bits(|x|)` — the float order is the integer order of the codes, and the real output decodes to the model's. -/
+theorem C07_rank_order_embedding (g : Int → Int) (hg : StrictMono g) (h0 : g 0 = 0) (m : Mode) (f : Img Int)
+    (fp : List (List Int)) (rank : Int) (p : List Int) :
+    rankAt m (mapImg g f) fp rank p = (rankAt m f fp rank p).map g :=
+  rankAt_mapImg g hg h0 m f fp rank p
+
+/-- non-vacuity: `x ↦ 4x` on the 2×2 image of the earlier examples, ignore mode at the corner: rank 2 of the cross gives
+    5 there and 20 on the re-encoded image -/
+example :
+    let f : Img Int := { shape := [2, 2], data := #[7, 1, 5, 3] }
+    let fp := footprint [3, 3] #[0, 1, 0, 1, 1, 1, 0, 1, 0]
+    StrictMono (fun x : Int => 4 * x) ∧ (mapImg (fun x => 4 * x) f).data.toList = [28, 4, 20, 12] ∧
+    rankAt .ignore (mapImg (fun x => 4 * x) f) fp 2 [0, 0] = some 20 := by
+  intro f fp
+  have hm : StrictMono (fun x : Int => 4 * x) := fun a b h => by simp only; omega
+  refine ⟨hm, by simp [mapImg, f], ?_⟩
+  rw [C07_rank_order_embedding _ hm (by norm_num), C07_rank_eq_spec _ _ (by decide)]
+  decide
+
+/-- **C07-R4d (`majority_filter`, closed form of the loops).** For a 2-D image `rows × cols` and window size `N` (the
+wrapper replaces an even `N` by `N + 1`, `majorityN`), `py_majority_filter` — output cleared, nothing done when
+`rows < N` or `cols < N`, otherwise `for (y = 0; y != rows−N; ++y) for (x = 0; x != cols−N; ++x)` — sets pixel `(Y, X)`
+**iff** the `N × N` window centred on it (top-left corner `(Y − N/2, X − N/2)`) lies inside the image, is NOT the last
+such window of its column or row (`Y − N/2 + N < rows`, strictly — the loops stop one short of the window flush with the
+bottom/right edge), and holds at least `⌊N²/2⌋` set pixels (for `N = 3`: 4 of 9 suffice; a window never counts more
+than `N²`). `majoritySpecB` is the executable form of the right-hand side the driver prints. (Observation for the report: the
+docstring's "majority … in the square centred on (y,x)" would be `count > N²/2` on every window inside the image; the
+function is outside the fixed statement of C07, so this is modelled as it is.) -/
+theorem C07_majority_closed_form (f : Img Int) (rows cols N Y X : Nat) (hf : f.shape = [rows, cols]) :
+    ((Y, X) ∈ majorityMarks f N ↔
+      (N / 2 ≤ Y ∧ Y - N / 2 + N < rows ∧ N / 2 ≤ X ∧ X - N / 2 + N < cols ∧
+        N * N / 2 ≤ windowCount f N (Y - N / 2) (X - N / 2))) ∧
+    ((Y, X) ∈ majorityMarks f N ↔ majoritySpecB f N Y X = true) ∧
+    windowCount f N (Y - N / 2) (X - N / 2) ≤ N * N :=
+  ⟨mem_majorityMarks f rows cols N Y X hf,
+   (mem_majorityMarks f rows cols N Y X hf).trans (majoritySpecB_iff f rows cols N Y X hf).symm,
+   windowCount_le f N _ _⟩
+
+/-- non-vacuity: a 5×5 image, `N = 3`: the window at the top-left holds 4 of 9 set pixels and is marked at its centre
+    `(1,1)`; the window flush with the bottom-right corner (8 of 9 set, centre `(3,3)`) is not evaluated; `N = 4` becomes 5 -/
+example :
+    let f : Img Int := { shape := [5, 5], data := #[1,1,0,0,0, 1,1,0,0,0, 0,0,0,1,1, 0,0,1,1,1, 0,0,1,1,1] }
+    majorityMarks f 3 = [(1, 1), (2, 2)] ∧ windowCount f 3 0 0 = 4 ∧ windowCount f 3 2 2 = 8 ∧
+    majoritySpecB f 3 3 3 = false ∧ majorityN 4 = 5 ∧ majorityMarks f 5 = [] := by
+  decide
